@@ -499,3 +499,8 @@ func mergeHeaps(s *Smt, hs []*Heap, conds []string) *Heap {
 	heapSeq++
 	return &Heap{id: heapSeq, over: map[string]string{}, merge: hs, mconds: conds, smt: s}
 }
+
+// domSort: heap cell sort of the key set of a map with keys of sort ks. The spelling (two spaces) is
+// deliberately different from the value sort of a map[K]bool, "(Array K Bool)": key sets and values
+// live in different heap components.
+func domSort(ks string) string { return "(Array " + ks + "  Bool)" }
